@@ -51,8 +51,10 @@ Definition has_children (e : fexpr) : bool :=
 (* the node gets a CachingFilterExpression wrapper *)
 Definition cacheable (e : fexpr) : bool := negb (volatile e) && (force_cache e || has_children e).
 
-(* BooleanExpression.cacheable_nodes(): is any node of the tree (walked through children(), which
-   for sub-queries continues into the nested filter expressions) wrapped? *)
+(* BooleanExpression.cacheable_nodes(): is any node of cache_tree() a CachingFilterExpression?  The walk
+   goes through children(); below a sub-query it reaches the nested filter expressions, but those are
+   the original, unwrapped ones (Path.set_children is a no-op, so cache_tree() never installs wrappers
+   there): nothing is found below a sub-query. *)
 Fixpoint any_cacheable (e : fexpr) : bool :=
   cacheable e ||
   match e with
@@ -60,20 +62,10 @@ Fixpoint any_cacheable (e : fexpr) : bool :=
   | FNot r => any_cacheable r
   | FInfix l _ r => any_cacheable l || any_cacheable r
   | FFunc _ args => any_cacheable_list args
-  | FSelf p | FRoot _ p | FCtx p => any_cacheable_segs p
   | _ => false
   end
 with any_cacheable_list (es : fexprs) : bool :=
-  match es with ENil => false | ECons e r => any_cacheable e || any_cacheable_list r end
-with any_cacheable_segs (p : segs) : bool :=
-  match p with
-  | PNil => false
-  | PCons (GList items) r =>
-      (fix go (l : sels) : bool :=
-         match l with LNil => false | LCons (SFilter e) r' => any_cacheable e || go r' | LCons _ r' => go r' end) items
-      || any_cacheable_segs r
-  | PCons _ r => any_cacheable_segs r
-  end.
+  match es with ENil => false | ECons e r => any_cacheable e || any_cacheable_list r end.
 
 Definition position := list nat.
 Definition store := list (position * fval).
